@@ -2322,7 +2322,7 @@ def real_handler_script(rng):
             'sources': rng.choice([1, 2, 2]), 'second_has_asset': rng.random() < 0.7,
             'submit_before_open': rng.random() < 0.5, 'tod': rng.choice(['14:30', '15:00', '18:45', '20:59']),
             'qx': rng.choice([1, -1]) * rng.randint(1, 400), 'qy': rng.choice([1, -1]) * rng.randint(1, 400),
-            'y_first': rng.random() < 0.5, 'rates': [rng.choice([0.0, 0.001, 0.0057]), rng.choice([0.0, 0.005])]}
+            'relative_dir': rng.random() < 0.3, 'y_first': rng.random() < 0.5, 'rates': [rng.choice([0.0, 0.001, 0.0057]), rng.choice([0.0, 0.005])]}
 
 
 def real_handler_case(sp, acc, prop):
@@ -2345,7 +2345,17 @@ def real_handler_case(sp, acc, prop):
         datawl.write_csv(os.path.join(d1, 'XXX.csv'), bars(p), list(range(len(days))))
         datawl.write_csv(os.path.join(d1, 'YYY.csv'), bars(p + 17.0), list(range(len(days))))
         datawl.write_csv(os.path.join(d2, ('YYY' if sp['second_has_asset'] else 'ZZZ') + '.csv'), bars(p2), list(range(len(days))))
-        sources = [CSVDailyBarDataSource(d1, None, adjust_prices=False)]
+        if sp.get('relative_dir'):
+            # the directory is named relative to where the program was started; the program moves elsewhere afterwards
+            cwd0 = os.getcwd()
+            os.chdir(os.path.dirname(d1))
+            try:
+                sources = [CSVDailyBarDataSource(os.path.basename(d1), None, adjust_prices=False)]
+            finally:
+                os.chdir(cwd0)
+            acc.count('%s:real_handler_sources_named_relative_to_an_earlier_working_directory' % prop)
+        else:
+            sources = [CSVDailyBarDataSource(d1, None, adjust_prices=False)]
         if sp['sources'] == 2:
             sources.append(CSVDailyBarDataSource(d2, None, adjust_prices=False))
         early = pd.Timestamp('2020-01-01 00:00:00', tz='UTC')
